@@ -604,6 +604,11 @@ def compare_models(m1, m2, case, judge, site, ips, ages, trajs1):
     if m1.fit_metrics != m2.fit_metrics:
         judge.add(site, "fit_metrics differ after reload", feat, "fit_metrics", expected=m1.fit_metrics,
                   observed=m2.fit_metrics)
+    # "survives save/load unchanged ... whatever its instance name": the reloaded object is the same model, name included
+    # (the file layout is not prescribed: only the object read back is compared)
+    if getattr(m1, "name", None) != getattr(m2, "name", None):
+        judge.add(site, "instance name differs after reload", name_class(case["name"], case["kind"]) or feat, "name",
+                  expected=getattr(m1, "name", None), observed=getattr(m2, "name", None))
     if trajs1 is None:
         return None
     try:
